@@ -80,6 +80,24 @@ def check(src, rep):
                     seen_o.add(so)
                     rep.violation("R2", fnq, f"unbounded-store:{so}", f"the {who} reader's step stores into `{so.rsplit('.', 1)[0]}` ({so.rsplit('.', 1)[1]}), a container of the reader that nothing empties or bounds: "
                                   "it grows with the stream (e.g. one entry per distinct line / frame)", model.file, (p1model.ploc(p, pp) if who == "P1" else loc(m, pp)))
+    # unbounded memoisation in the modules the readers run in: the table outlives every message and grows with the distinct arguments seen
+    import ast as _ast
+    n_memo = 0
+    for mod_ in ("hdlc", "fastframecheck", "dlde"):
+        t_ = m.M.mods.get(mod_)
+        for f_ in ([n_ for n_ in _ast.walk(t_) if isinstance(n_, (_ast.FunctionDef, _ast.AsyncFunctionDef))] if t_ is not None else []):
+            for d_ in f_.decorator_list:
+                e_ = d_.func if isinstance(d_, _ast.Call) else d_
+                dn_ = e_.id if isinstance(e_, _ast.Name) else getattr(e_, "attr", None)
+                unbounded = dn_ == "cache" or (dn_ == "lru_cache" and isinstance(d_, _ast.Call) and (
+                    any(k_.arg == "maxsize" and isinstance(k_.value, _ast.Constant) and k_.value.value is None for k_ in d_.keywords) or
+                    (d_.args and isinstance(d_.args[0], _ast.Constant) and d_.args[0].value is None)))
+                n_params = len([a_ for a_ in f_.args.args if a_.arg not in ("self", "cls")])
+                if dn_ in ("cache", "lru_cache"):
+                    n_memo += 1
+                if unbounded and n_params:
+                    rep.violation("R2", f"{mod_}.{f_.name}", f"unbounded-memo:{f_.name}", f"{f_.name}() is memoised without a size limit: one entry is kept for every distinct argument tuple ever seen, for the life of "
+                                  "the process - memory retained on behalf of the readers grows with the variety of the stream, not with the size of a message", src.file(mod_), f_.lineno)
     rep.floor("stores covered", 5, 5)
     from sa.cross import include
     include(rep, src, "C01", {"R2"}, "R1", "a frame grows by exactly one octet per append (premise of the frame-length bound: the guard that discards over-long frames can fire)")
